@@ -46,6 +46,7 @@ struct deliv { int dlci; int len; uint8_t data[RXBUF + 64]; };
 static struct deliv dv[4];
 static int ndv;
 static unsigned long total_deliveries;
+static int oversize_len = -1, oversize_dlci;   /* a handler was given >= 2048 payload octets */
 
 static void on_rx(uint8_t dlci, struct msgb *msg)
 {
@@ -56,6 +57,7 @@ static void on_rx(uint8_t dlci, struct msgb *msg)
 		if (len > (int)sizeof(dv[ndv].data)) len = sizeof(dv[ndv].data);
 		if (len > 0) memcpy(dv[ndv].data, msg->data, len);
 	}
+	if (msg->tail - msg->data >= 2048 && oversize_len < 0) { oversize_len = msg->tail - msg->data; oversize_dlci = dlci; }
 	ndv++;
 	total_deliveries++;
 	msgb_free(msg);
@@ -111,9 +113,11 @@ static int taint;               /* for the violation key: 0 none, 1 over-long fr
 static uint8_t dec_head[8]; static int ndec_head;
 static unsigned long n_frames, n_exact, n_octets, n_escapes, n_tolerated, n_noise, n_overlong, n_idle_pulls;
 
+static int abandon;             /* scenario left the judged domain inside the tolerance window (not a violation) */
+
 static void ref_reset(void)
 {
-	npend = 0; have_cur = 0; cur_idx = cur_esc = cur_overlong = cur_wirebad = 0; desync = 0; taint = 0; ndv = 0;
+	npend = 0; have_cur = 0; cur_idx = cur_esc = cur_overlong = cur_wirebad = 0; desync = 0; taint = 0; ndv = 0; abandon = 0; oversize_len = -1;
 }
 
 static void do_reset(void)
@@ -141,9 +145,53 @@ static const char *kindkey(const char *kind, int dlci)
 	return k;
 }
 
-/* judge the handler calls made while one octet (or one injected burst) was fed to the receiver */
-static void judge(int frame_end)
+static unsigned long n_abandoned, n_echo_queued;
+
+/* a payload as long as the receive buffer or longer must never reach a handler, in sync or not:
+ * over-long frames are discarded, and what an out-of-sync receiver hands out is at most one buffer */
+static void check_oversize(void)
 {
+	if (oversize_len >= 0)
+		viol("C06:overlong:delivered", "handler of dlci 0x%02x was given %d payload octets (receive buffer: %d)", oversize_dlci, oversize_len, RXBUF);
+	oversize_len = -1;
+}
+
+/* the newest message queued for transmission on the echo DLCI is exactly the frame `m` */
+static int echo_is(const struct rmsg *m)
+{
+	struct llist_head *q = &sercomm.tx.dlci_queues[128];
+	struct msgb *e;
+	if (llist_empty(q)) return 0;
+	e = llist_entry(q->prev, struct msgb, list);
+	return e->tail - e->data == m->len + 2 && e->data[0] == 128 && (!m->len || !memcmp(e->data + 2, m->p, m->len));
+}
+
+/* judge the handler calls made while one octet (or one injected burst) was fed to the receiver.
+ * echo_before: depth of the echo DLCI's transmit queue before the octet was fed (-1: not recorded) */
+static void judge(int frame_end, int echo_before)
+{
+	check_oversize();
+	if (frame_end && have_cur && cur.dlci == 128 && echo_before >= 0) {
+		/* echo DLCI: the handler is sercomm_sendmsg itself -> "delivered" means the identical frame is
+		 * queued for transmission once more */
+		int grown = (int)sercomm_tx_queue_depth(128) - echo_before;
+		if (desync) {
+			/* tolerance window: the frame may be lost; if it was echoed it must be the right echo,
+			 * which is then judged on the wire like any other frame; anything else ends the scenario */
+			n_tolerated += ndv; ndv = 0;
+			if (grown == 1 && echo_is(&cur) && npend < MAXPEND) { pend[npend++] = cur; n_echo_queued++; }
+			else if (grown != 0) abandon = 1;
+			return;
+		}
+		if (ndv) viol(kindkey("misdelivered", 128), "frame for the echo DLCI reached the handler of DLCI 0x%02x", dv[0].dlci);
+		else if (grown == 0) viol(kindkey("lost", 128), "echo DLCI: frame with payload %s complete, nothing queued for transmission", hex(cur.p, cur.len));
+		else if (grown > 1) viol(kindkey("duplicate", 128), "echo DLCI: %d messages queued for one frame", grown);
+		else if (!echo_is(&cur)) viol(kindkey("payload", 128), "echo DLCI: queued echo differs from the frame received (payload %s)", hex(cur.p, cur.len));
+		else { n_exact++; n_echo_queued++; taint = 0; }
+		if (npend < MAXPEND) pend[npend++] = cur;
+		ndv = 0;
+		return;
+	}
 	if (desync) {
 		if (ndv) n_tolerated += ndv;
 		ndv = 0;
@@ -153,13 +201,6 @@ static void judge(int frame_end)
 		if (ndv)
 			viol(kindkey("spurious", have_cur ? cur.dlci : -1),
 			     "handler of DLCI 0x%02x called with %s although no frame was complete", dv[0].dlci, hex(dv[0].data, dv[0].len));
-		ndv = 0;
-		return;
-	}
-	if (cur.dlci == 128) {
-		/* echo DLCI: handler is sercomm_sendmsg itself -> the frame must be queued for transmission again */
-		if (ndv) viol("C06:dlci=0x80:misdelivered", "frame for the echo DLCI reached the handler of DLCI 0x%02x", dv[0].dlci);
-		if (npend < MAXPEND) pend[npend++] = cur;
 		ndv = 0;
 		return;
 	}
@@ -269,16 +310,22 @@ static int do_pull(int feed)
 	}
 	n_octets++;
 	if (feed) {
+		int echo_before = (end && cur.dlci == 128) ? (int)sercomm_tx_queue_depth(128) : -1;
 		sercomm_drv_rx_char(ch);
 		if (cur_overlong) {
 			/* an over-long frame must be discarded; deliveries while it passes are only excused if
 			 * reception was already out of sync */
+			check_oversize();
 			if (ndv && !desync) viol("C06:overlong:delivered", "handler of dlci 0x%02x called while an over-long frame (%d payload octets) was received", dv[0].dlci, cur.len);
+			if (echo_before >= 0 && (int)sercomm_tx_queue_depth(128) != echo_before) {
+				if (!desync) viol("C06:overlong:delivered", "over-long frame (%d payload octets) for the echo DLCI was echoed", cur.len);
+				else abandon = 1;
+			}
 			ndv = 0;
 			if (end) { desync = 1; if (taint < 1) taint = 1; n_overlong++; }
 		} else {
 			int was = desync;
-			judge(end);
+			judge(end, echo_before);
 			if (end && was) desync = 0;
 		}
 	}
@@ -292,7 +339,7 @@ static void do_noise(uint8_t o)
 	sercomm_drv_rx_char(o);
 	n_noise++;
 	if (desync && taint < 2) taint = 2;
-	judge(0);
+	judge(0, -1);
 }
 
 /* an over-long frame fed to the receiver directly: flag, address, control, len payload octets, flag */
@@ -307,6 +354,7 @@ static void do_overlong(long len)
 	for (i = 0; i < len; i++) sercomm_drv_rx_char(0x30 + (i & 0x3f));   /* 0x30..0x6f: no flag, escape or zero */
 	sercomm_drv_rx_char(HDLC_FLAG);
 	n_overlong++; n_octets += len + 4;
+	check_oversize();
 	if (ndv && insync) viol("C06:overlong:delivered", "handler of dlci 0x%02x called while an over-long frame (%ld payload octets) was received", dv[0].dlci, len);
 	ndv = 0;
 	desync = 1;
@@ -317,7 +365,7 @@ static void do_overlong(long len)
 static void run_frame(int feed)
 {
 	int r, guard = 0;
-	do { r = do_pull(feed); } while (r == 1 && !bad && ++guard < 400000);
+	do { r = do_pull(feed); } while (r == 1 && !bad && !abandon && ++guard < 400000);
 }
 
 /* ------------------------------------------------------------------ fingerprint of real + reference state */
@@ -581,8 +629,9 @@ static int run_tokens(const char *s)
 		else if (strchr("pqPQ", tok[0]) && !tok[1]) ev_apply(&e);
 		else goto bad_tok;
 		n++;
-		if (bad) break;      /* the first violation ends the case, as in the search */
+		if (bad || abandon) break;      /* the first violation ends the case, as in the search */
 	}
+	if (abandon) n_abandoned++;
 	return n;
 bad_tok:
 	fprintf(res, "{\"harness_error\": \"bad token %s\"}\n", tok); fflush(res); exit(3);
@@ -676,13 +725,24 @@ static int do_resync(int part, int nparts)
 		{ "s5.-,P", "s5.7e,P", "s9.410042,P" },
 		{ "s127.7d5e,P", "s4.00,P", "s5.7e7d,P" },
 		{ "s10.41,P", "s10.7d,P", "s10.5e,P" },
+		/* echo DLCI right after the over-long frame: the receive buffer must be as good as a fresh one
+		 * (the echo handler pushes a header in front of what it is given); Q pulls the echo, not fed back */
+		{ "s128.41,P,Q", "s128.7e00,P,Q", "s5.41,P" },
+		/* longest deliverable payload right after the over-long frame, then echo of an empty and of a longest frame */
+		{ "S5.2047.7e.00.55,P", "s128.-,P,Q", "S128.2047.41.7d.7e,P,Q" },
+		/* DLCIs whose address octet is escaped on the wire */
+		{ "s0.41,P", "s125.00,P", "s126.7e,P" },
+		/* an over-long frame of 2050 octets as the frame that follows, echo DLCI after it */
+		{ "S5.2050.41.42.55,P", "s128.7d,P,Q", "s4.7d,P" },
 	};
+#define NFR 7
 	unsigned long ncase = 0, nrun = 0;
-	const unsigned long total = 10 * 2 * 3 * (1 + 5 + 25 + 125) * 6;   /* contiguous blocks: the earliest failing scenario is reported */
+	/* the two longest frames (65000 through the transmitter, 70000 injected) take 0..1 noise octets after them, the others 0..3 */
+	const unsigned long total = 8 * 2 * NFR * (1 + 5 + 25 + 125) * 6 + 2 * 2 * NFR * (1 + 5) * 6;   /* contiguous blocks: the earliest failing scenario is reported */
 	int o, fa, f, nb, bidx, nc, cidx;
 	trace_fn = case_trace;
-	for (o = 0; o < 10; o++) for (fa = 0; fa < 2; fa++) for (f = 0; f < 3; f++)
-	for (nb = 0; nb <= 3; nb++) { int nbmax = 1, i; for (i = 0; i < nb; i++) nbmax *= 5;
+	for (o = 0; o < 10; o++) for (fa = 0; fa < 2; fa++) for (f = 0; f < NFR; f++)
+	for (nb = 0; nb <= ((o == 5 || o == 9) ? 1 : 3); nb++) { int nbmax = 1, i; for (i = 0; i < nb; i++) nbmax *= 5;
 	for (bidx = 0; bidx < nbmax; bidx++)
 	for (nc = 0; nc <= 1; nc++) for (cidx = 0; cidx < (nc ? 5 : 1); cidx++) {
 		char *p = casebuf; int x = bidx, i;
@@ -694,11 +754,11 @@ static int do_resync(int part, int nparts)
 		if (nc) p += sprintf(p, "n%s,", NOISE[cidx]);
 		p += sprintf(p, "%s,%s", FR[f][1], FR[f][2]);
 		run_tokens(casebuf);
-		if (!bad && (desync || have_cur || npend)) { fprintf(res, "{\"harness_error\": \"scenario %s did not end in sync\"}\n", casebuf); fflush(res); exit(3); }
+		if (!bad && !abandon && (desync || have_cur || npend)) { fprintf(res, "{\"harness_error\": \"scenario %s did not end in sync\"}\n", casebuf); fflush(res); exit(3); }
 		nrun++;
 	} }
 	fprintf(res, "{\"resync_scenarios\": %lu, \"frames\": %lu, \"exact_deliveries\": %lu, \"tolerated_deliveries\": %lu, \"wire_octets\": %lu, "
-		"\"noise_octets\": %lu, \"overlong_frames\": %lu, \"violations\": %lu}\n", nrun, n_frames, n_exact, n_tolerated, n_octets, n_noise, n_overlong, nviol);
+		"\"noise_octets\": %lu, \"overlong_frames\": %lu, \"echoes_queued\": %lu, \"scenarios_abandoned_in_window\": %lu, \"violations\": %lu}\n", nrun, n_frames, n_exact, n_tolerated, n_octets, n_noise, n_overlong, n_echo_queued, n_abandoned, nviol);
 	return nviol ? 1 : 0;
 }
 
